@@ -1243,9 +1243,13 @@ def _known_vendor_prefix(text):
 
 @register(SSHVER + 'SshSoftwareVersionUnparsed')
 def _software_unparsed():
-    return obj(SSHVER + 'SshSoftwareVersionUnparsed',
-               st.text(alphabet='abcdefghijklmnopqrstuvwxyzABCDEFGHIJKLMNOPQRSTUVWXYZ0123456789._+', min_size=1, max_size=30)
-               .filter(lambda t: not _known_vendor_prefix(t)))
+    # near misses of the vendor grammars (vendor name + separator and nothing else, a wrong separator, a vendor name
+    # running on): no vendor class takes them, they stay unparsed
+    near_misses = st.sampled_from(['OpenSSH_', 'dropbear_', 'IPSSH-', 'cryptlib_', 'Monaca_', 'OpenSSHx', 'OpenSSH-7',
+                                   'OpenSSH__1'])
+    return obj(SSHVER + 'SshSoftwareVersionUnparsed', st.one_of(
+        st.text(alphabet='abcdefghijklmnopqrstuvwxyzABCDEFGHIJKLMNOPQRSTUVWXYZ0123456789._+', min_size=1, max_size=30)
+        .filter(lambda t: not _known_vendor_prefix(t)), near_misses))
 
 
 @register(SSHSUB + 'SshProtocolMessage')
